@@ -635,6 +635,14 @@ pub fn c07_cases(seed: u64, first_id: usize, n: usize) -> Vec<Case> {
                     let pick = rng.pick(&all).clone();
                     t.bases.push((format!("l{l}t{k}b{b}"), pick));
                 }
+                if rng.chance(1, 4) {
+                    // an extern type as a base: nothing to inherit from it, but it is a base
+                    // sub-object like any other
+                    if m.extern_types.is_empty() {
+                        m.extern_types.push((Ident("XBase".into()), Attributes(vec![Attribute::size(16), Attribute::align(8)])));
+                    }
+                    t.bases.push((format!("l{l}t{k}x"), "XBase".into()));
+                }
                 t.impl_fns.push(with_address(func(&mut rng, &format!("l{l}_{k}_own"), Some(Some(false)), 8, 3), addr.next()));
                 t.nfields = rng.range(0, 2);
                 t.add_to(&mut m);
